@@ -223,7 +223,7 @@ func Run(r *fw.Run) {
 	r.Assume = []string{"Route worlds whose designation differs between the sensible readings (name = service port name; number = effective targetPort / port / literal targetPort) are excluded and counted: the statement leaves the Route rule open",
 		"'an arbitrary unlabeled pod in a namespace unknown to the input' = a pod without labels in a namespace whose only label is its name (ingress side of the policies only)"}
 	if r.Quick() {
-		r.SetBudget(150 * time.Second)
+		r.SetBudget(300 * time.Second)
 	} else {
 		r.SetBudget(30 * time.Minute)
 	}
